@@ -24,24 +24,24 @@ def run(c):
         PL + "reconcile_block": {"Vec::retain"},
     }, floor=4)
     A = PL + "add_to_pool"
-    c.r1("push-after-aggregate-validation", A, PL + "validate_raw_tx", sink="re:alloc::vec::Vec::push$", sink_where=r"^arg0\.entries", via=0,
+    c.r1("push-after-aggregate-validation", A, PL + "validate_raw_tx", sink="re:alloc::vec::Vec::push$", sink_where=r"^arg0\.entries", via=2,
          desc="Pool::add_to_pool: the entry is pushed only after validate_raw_tx on the aggregate succeeded")
     c.r2_arg("aggregate-includes-pool", A, PL + "validate_raw_tx", 1, must=["call:transaction::aggregate", "call:Pool::all_transactions", "arg1.tx"],
              desc="the validated transaction is the aggregate of all pool transactions plus the new one (or the new one alone for an empty pool)")
     c.r2("no-duplicate", A, cond=r"^slice::contains\(Pool::all_transactions\(arg0\), arg1\.tx\)$", fail_on=True, err="DuplicateTx", sink="re:alloc::vec::Vec::push$")
     V = PL + "validate_raw_tx"
-    c.r1_all("raw-validation", V, [T + "Transaction::validate", "grin_pool::types::BlockChain::validate_tx", PL + "apply_tx_to_block_sums"], via=0)
-    c.r1("sums-checked", PL + "apply_tx_to_block_sums", "grin_core::core::committed::Committed::verify_kernel_sums", via=0)
+    c.r1_all("raw-validation", V, [T + "Transaction::validate", "grin_pool::types::BlockChain::validate_tx", PL + "apply_tx_to_block_sums"], via=2)
+    c.r1("sums-checked", PL + "apply_tx_to_block_sums", "grin_core::core::committed::Committed::verify_kernel_sums", via=2)
     c.r3("add_to_pool-callers", PL + "add_to_pool", {TP + "add_to_txpool", TP + "add_to_stempool", PL + "reconcile"}, floor_sites=3)
     c.r3("add_to_txpool-callers", TP + "add_to_txpool", {TP + "add_to_pool", TP + "reconcile_reorg_cache"}, floor_sites=2)
     c.r3("add_to_stempool-callers", TP + "add_to_stempool", {TP + "add_to_pool"}, floor_sites=1)
     # --- public admission funnel
     P = TP + "add_to_pool"
     for sink in ("add_to_stempool", "add_to_txpool"):
-        c.r1("admit-%s-kernel-variants" % sink, P, TP + "verify_kernel_variants", sink=TP + sink, via=0)
-        c.r1("admit-%s-standalone" % sink, P, T + "Transaction::validate", sink=TP + sink, via=0)
-        c.r1("admit-%s-acceptable" % sink, P, TP + "is_acceptable", sink=TP + sink, via=0, called_only=True)
-        c.r1("admit-%s-v2" % sink, P, TP + "convert_tx_v2", sink=TP + sink, via=0)
+        c.r1("admit-%s-kernel-variants" % sink, P, TP + "verify_kernel_variants", sink=TP + sink, via=2)
+        c.r1("admit-%s-standalone" % sink, P, T + "Transaction::validate", sink=TP + sink, via=2)
+        c.r1("admit-%s-acceptable" % sink, P, TP + "is_acceptable", sink=TP + sink, via=2, called_only=True)
+        c.r1("admit-%s-v2" % sink, P, TP + "convert_tx_v2", sink=TP + sink, via=2)
     c.r2_arg("standalone-weight-limit", P, T + "Transaction::validate", 1, text=r"^Weighting::AsTransaction\{\}$", desc="standalone validation uses Weighting::AsTransaction")
     # the only ways past is_acceptable: it returned Ok, or (non-stem) it returned exactly OverCapacity
     key = c.getfn(P)
@@ -91,19 +91,19 @@ def run(c):
     # --- reconciliation goes through the same funnel
     c.loop("reconcile-readds", PL + "reconcile", PL + "add_to_pool", over=r"Clone::clone\(arg0\.entries\)|arg0\.entries", called_only=True,
            desc="Pool::reconcile re-adds every surviving entry through add_to_pool (a failing entry is dropped)")
-    c.r1("reconcile-clears-first", PL + "reconcile", "re:alloc::vec::Vec::clear$", sink=PL + "add_to_pool", via=0)
+    c.r1("reconcile-clears-first", PL + "reconcile", "re:alloc::vec::Vec::clear$", sink=PL + "add_to_pool", via=2)
     R = TP + "reconcile_block"
-    c.r1("reconcile-block-txpool", R, PL + "reconcile", via=0)
-    c.r1("reconcile-block-order", R, PL + "reconcile_block", sink=PL + "reconcile", via=0)
+    c.r1("reconcile-block-txpool", R, PL + "reconcile", via=2)
+    c.r1("reconcile-block-order", R, PL + "reconcile_block", sink=PL + "reconcile", via=2)
     c.r2_arg("stempool-reconciled-with-txpool", R, PL + "reconcile", 1, must=["call:Pool::all_transactions_aggregate", "arg0.txpool"], where=r"^arg0\.stempool", floor=1)
     # --- mineable set and block template
     M = PL + "prepare_mineable_transactions"
-    c.r1("mineable-validated", M, PL + "validate_raw_txs", via=0)
+    c.r1("mineable-validated", M, PL + "validate_raw_txs", via=2)
     c.r2_arg("mineable-weight-buckets", M, PL + "bucket_transactions", 1, must=["arg1"], desc="buckets are built under Weighting::AsLimitedTransaction(max_weight)")
     c.r2_arg("mineable-weight-validate", M, PL + "validate_raw_txs", 4, must=["arg1"])
     c.r2_arg("mineable-config-weight", TP + "prepare_mineable_transactions", M, 1, must=["arg0.config.mineable_max_weight"])
     BB = "grin_servers::mining::mine_block::build_block"
-    c.r1_all("template", BB, ["grin_core::core::block::Block::from_reward", "grin_core::core::block::Block::validate", "grin_chain::chain::Chain::set_txhashset_roots"], via=0)
+    c.r1_all("template", BB, ["grin_core::core::block::Block::from_reward", "grin_core::core::block::Block::validate", "grin_chain::chain::Chain::set_txhashset_roots"], via=2)
     c.r2_arg("template-offset", BB, "grin_core::core::block::Block::validate", 1, must=["call:Chain::head_header", "re:total_kernel_offset$"])
     # --- result discipline in the pool crate: the only discarded Results are the two tolerated re-add failures
     c.r6("pool-results", ["grin_pool"], {
